@@ -22,6 +22,10 @@ def search_more(prop, cfg, seed, workdir, budget_s=240):
         for s in cfg["streams"]:
             if time.time() - t0 > budget_s:
                 return None, tried
+            if s.get("race_only"):
+                # race-detector builds of other properties' scenarios: only the detector's verdict counts
+                # for this property (judged in the main pass); their own oracles are not this property's
+                continue
             if s.get("scenario"):
                 import subprocess
                 cmd = [x.replace("{seed}", str(seed + 1000 * k)).replace("{tier}", "thorough" if k > 1 else "quick").replace("{bin}", lib.BIN) for x in s["scenario"]]
